@@ -71,28 +71,39 @@ func buildServer() {
 	srv, srvErr = newServerFixture(srvStakes, srvPropTh, srvValTh)
 }
 
+// commitValidatorSet commits a validator set that gives key i the stake
+// stakes[i] (online chamber validators; 0 = key i is not registered) into db
+// and returns its validator root.  Panics on failure (callers use mc.Catch).
+func commitValidatorSet(db state.Database, stakes []int64) common.Hash {
+	st, err := state.New(common.Hash{}, common.Hash{}, common.Hash{}, db)
+	if err != nil {
+		panic(err)
+	}
+	for i, k := range keys {
+		if stakes[i] == 0 {
+			continue
+		}
+		pub := crypto.CompressPubkey(&k.ec.PublicKey)
+		tok := new(big.Int).Mul(big.NewInt(stakes[i]), params.StakeUint)
+		v := st.CreateValidator(fmt.Sprintf("v%d", i), common.Address{0xa0, byte(i)}, common.Address{0xb0, byte(i)}, params.RoleChancellor, pub, []byte{byte(i)}, tok, big.NewInt(stakes[i]), 1, 1000, 5000, params.ValidatorOnline)
+		if v == nil || v.MainAddress() != crypto.PubkeyToAddress(k.ec.PublicKey) {
+			panic("validator fixture: address mismatch")
+		}
+	}
+	_, valRoot, _, err := st.Commit(true)
+	if err != nil {
+		panic(err)
+	}
+	return valRoot
+}
+
 // newServerFixture builds a Server over a stub chain reader whose committed
 // validator set gives key i the stake stakes[i] (all chamber validators) and
 // whose round parameters carry the given thresholds.
 func newServerFixture(stakes []int64, propTh, valTh uint64) (s *ucon.Server, errMsg string) {
 	errMsg = mc.Catch(func() {
 		db := state.NewDatabase(youdb.NewMemDatabase())
-		st, err := state.New(common.Hash{}, common.Hash{}, common.Hash{}, db)
-		if err != nil {
-			panic(err)
-		}
-		for i, k := range keys {
-			pub := crypto.CompressPubkey(&k.ec.PublicKey)
-			tok := new(big.Int).Mul(big.NewInt(stakes[i]), params.StakeUint)
-			v := st.CreateValidator(fmt.Sprintf("v%d", i), common.Address{0xa0, byte(i)}, common.Address{0xb0, byte(i)}, params.RoleChancellor, pub, []byte{byte(i)}, tok, big.NewInt(stakes[i]), 1, 1000, 5000, params.ValidatorOnline)
-			if v == nil || v.MainAddress() != crypto.PubkeyToAddress(k.ec.PublicKey) {
-				panic("validator fixture: address mismatch")
-			}
-		}
-		_, valRoot, _, err := st.Commit(true)
-		if err != nil {
-			panic(err)
-		}
+		valRoot := commitValidatorSet(db, stakes)
 		cons, err := rlp.EncodeToBytes(&ucon.BlockConsensusData{Round: big.NewInt(1), Seed: srvSeed, ProposerThreshold: propTh, ValidatorThreshold: valTh})
 		if err != nil {
 			panic(err)
